@@ -15,7 +15,8 @@ from fractions import Fraction
 VERIF = os.path.dirname(os.path.dirname(os.path.abspath(__file__)))
 REPO = os.environ.get("VERIF_REPO", "/repo")
 LEAN_DIR = os.path.join(VERIF, "lean")
-DRV = os.path.join(LEAN_DIR, ".lake", "build", "bin", "drv")
+# VERIF_DRV (development drills only): a private copy of the driver, so that rebuilding lean/ does not disturb a drill
+DRV = os.environ.get("VERIF_DRV") or os.path.join(LEAN_DIR, ".lake", "build", "bin", "drv")
 
 if REPO not in sys.path:
     sys.path.insert(0, REPO)
